@@ -22,6 +22,10 @@ type c12Case struct {
 	Fault *dsl.Fault `json:"fault,omitempty"` // nil: well-formed, must be accepted
 	First int        `json:"first,omitempty"` // line span of the offending declaration
 	Last  int        `json:"last,omitempty"`
+	// NoOutputs: no output flag on the command line (the DSL is only checked)
+	NoOutputs bool `json:"no_outputs,omitempty"`
+	// NoWord: the command line omits the `compile` word
+	NoWord bool `json:"no_word,omitempty"`
 }
 
 var semDiagRe = regexp.MustCompile(`Syntax error at line (\d+), column (-?\d+): (.*)`)
@@ -55,7 +59,11 @@ func evalC12(k c12Case) []pbt.Violation {
 	if len(langs) == 0 {
 		langs = inproc.Langs
 	}
-	trees, r, dir := compileCLI(k.Text, langs, true)
+	if k.NoOutputs {
+		// no output flag at all: the DSL is only checked
+		langs = nil
+	}
+	trees, r, dir := compileCLI(k.Text, langs, !k.NoWord)
 	defer os.RemoveAll(dir)
 	out := string(r.Stdout) + "\n" + string(r.Stderr)
 	nfiles := 0
@@ -179,6 +187,11 @@ func TestC12(t *testing.T) {
 			c.Eval()
 			c.Class("wellformed:target-subset")
 			c.Report(rt, sk, evalC12(sk))
+		case 2:
+			sk := c12Case{Text: text, NoOutputs: true, NoWord: rapid.Bool().Draw(rt, "wf_noword")}
+			c.Eval()
+			c.Class("wellformed:no-output-flag")
+			c.Report(rt, sk, evalC12(sk))
 		case 1:
 			if !dsl.Has(feats, "len") {
 				q := p.Clone()
@@ -224,6 +237,23 @@ func TestC12(t *testing.T) {
 					})
 				}
 				c.Report(rt, fk, evalC12(fk))
+				if rapid.IntRange(0, 5).Draw(rt, fmt.Sprintf("check_only_%s_%d", cls, s)) == 0 {
+					// the same faulty text with no output flag (a check-only run), with or without the
+					// `compile` word, or with only some of the targets
+					ck := fk
+					switch rapid.IntRange(0, 2).Draw(rt, fmt.Sprintf("check_only_kind_%s_%d", cls, s)) {
+					case 0:
+						ck.NoOutputs = true
+					case 1:
+						ck.NoOutputs, ck.NoWord = true, true
+					default:
+						ck.Langs = rapid.SliceOfNDistinct(rapid.SampledFrom(inproc.Langs), 1, 2, rapid.ID[string]).Draw(rt, fmt.Sprintf("fault_subset_%s_%d", cls, s))
+						ck.NoWord = rapid.Bool().Draw(rt, fmt.Sprintf("fault_noword_%s_%d", cls, s))
+					}
+					c.Eval()
+					c.Class("fault-with-few-or-no-output-flags")
+					c.Report(rt, ck, evalC12(ck))
+				}
 			}
 		}
 	})
